@@ -4,7 +4,7 @@
    The laws are Section hypotheses: after the section they are explicit premises of the theorem (no axioms). *)
 From Coq Require Import List ZArith NArith Bool.
 Import ListNotations.
-From PyccoloV Require Import gen.PyAst model.Tree model.Erase.
+From PyccoloV Require Import gen.PyAst gen.Ids model.Tree model.Erase model.Sites.
 
 Section tree_ind2.
   Variable P : tree -> Prop.
@@ -143,5 +143,18 @@ Section Abs.
     unfold check_erase. intros H. destruct (erase out) as [[|t [|? ?]]|] eqn:E; try discriminate.
     apply tree_eqb_eq in H. subst t.
     eapply eqvl_trans; [apply (erase_sound out _ E)|]. cbn. apply law_norm.
+  Qed.
+
+  (* C02, static half: at a site that passes the check, the expression whose value is handed to the handler is equivalent
+     to the source construct (node number n of the source, or its designated child) the event is defined to report *)
+  Theorem site_ok_sound pre t ev n rest kws r node s v :
+    emit_parts t = Some (ev, SNid n, rest, kws) -> sel_of ev = Some s -> kw_value id_ret kws = Some r -> tlam_parts r = None ->
+    nth_error pre (N.to_nat n) = Some node -> select s node = Some v ->
+    site_ok pre t = true -> eqvl [den r] [den v].
+  Proof.
+    intros He Hs Hr Ht Hn Hv H. unfold site_ok in H. rewrite He, Hs, Hr, Ht in H.
+    destruct (erase r) as [[|x [|? ?]]|] eqn:E; try discriminate.
+    rewrite Hn, Hv in H. apply tree_eqb_eq in H. subst x.
+    eapply eqvl_trans; [apply (erase_sound r _ E)|]. cbn. apply law_norm.
   Qed.
 End Abs.
